@@ -1095,6 +1095,51 @@ def explore_inplace(b, root, r):
                     'example_intermediate': inter[0] if inter else None, 'old_reads_as': d_old, 'new_reads_as': d_new})
     return out
 
+def explore_cdb(b, root):
+    """cdb.ReaderWriter (the optional 'cdb' mapping): every modification is appended to a journal and flushed;
+    flush()/close() rebuild the constant database through Maker (an AtomicFile) and then remove the journal; open
+    replays a journal it finds.  Kill flush() at every file-system call and reopen: the mapping read back must be
+    the complete new mapping (everything journalled is durable), whatever was or was not rebuilt.  Not modelled."""
+    from supybot import cdb
+    sc = Scenario(root, 'flat', 'cdb', None, None, CONFIGS[1])
+    path = os.path.join(root, 'conf', 'map.cdb')
+    def seed():
+        db = cdb.open_db(path, 'c')
+        db['a'] = '1'; db['b'] = '2'; db['c'] = '3'
+        db.close()
+    def modify_then(flush):
+        db = cdb.open_db(path, 'c')
+        db['b'] = 'two'; db['d'] = '4'        # (del db[key] raises KeyError for stored keys on this tree: not exercised)
+        if flush:
+            db.flush()
+        return db
+    def dump():
+        db = cdb.open_db(path, 'c')
+        out = sorted((k, db[k]) for k in db.keys())
+        return out
+    want = [['a', '1'], ['b', 'two'], ['c', '3'], ['d', '4']]
+    def fresh():
+        reset_dir(sc, None, plain=True)
+        in_child(seed)
+    fresh()
+    code, tr = in_child(lambda: run_flush(b, sc, lambda: modify_then(True), None, False))
+    npts = (tr or {}).get('points', 0)
+    bad = []
+    for p in range(npts + 1):
+        fresh()
+        in_child(lambda: run_flush(b, sc, lambda: modify_then(True), p, False))
+        code, d = in_child(dump)
+        if code != 0 or d is None:
+            bad.append({'crash_point': p, 'reopen': 'raised'})
+        else:
+            # the three modifications are journalled one after the other: any prefix of them may be durable
+            # before the flush proper starts, all of them once flush() has been entered
+            allowed = [[['a', '1'], ['b', '2'], ['c', '3']], [['a', '1'], ['b', 'two'], ['c', '3']], want]
+            if d not in allowed:
+                bad.append({'crash_point': p, 'reads_as': d})
+    return {'writer': 'cdb.ReaderWriter (journal + Maker)', 'calls': [e['k'] for e in (tr or {}).get('events', [])],
+            'crash_points': npts + 1, 'bad_states': bad}
+
 def big_scenarios(root, r, thorough):
     out = []
     for kind in BIG_KINDS:
@@ -1232,6 +1277,7 @@ def extra_cases(ctx, thorough):
                 for c, line in explore_world(b, callers, root, r, cfg, None if thorough else (r, 110)):
                     cases.append(c); lines.append(line); pend.append((c, lambda o: o.split(';')[0]))
         inplace = explore_inplace(b, root, r)
+        inplace.append(explore_cdb(b, root))
     finally:
         (b.utils_file.AtomicFile.default.tmpDir, b.utils_file.AtomicFile.default.backupDir,
          b.utils_file.AtomicFile.default.allowEmptyOverwrite, b.utils_file.AtomicFile.default.makeBackupIfSmaller) = saved
